@@ -12,10 +12,17 @@ import (
 	"time"
 )
 
-const (
-	repoDir = "/repo"
-	modPath = "github.com/cosmos/cosmos-proto"
-)
+const modPath = "github.com/cosmos/cosmos-proto"
+
+// repoDir is the tree under test: /repo's current working tree. (VERIF_REPO
+// exists only so that tools/selftest.sh can point the same checks at scratch
+// worktrees carrying a seeded change; no registered command sets it.)
+var repoDir = func() string {
+	if d := os.Getenv("VERIF_REPO"); d != "" {
+		return d
+	}
+	return "/repo"
+}()
 
 // verifDir is where the harness sources, evidence and replay files live: the
 // directory of the check script (normally /verif; a snapshot under vp run).
